@@ -132,6 +132,39 @@ def fences_env_internal():
     return InternalException("Path not fully consumed")
 
 
+def siblings_completable(ops, root, path, target):
+    """True when, for EVERY occurrence of the target in the execution of [path], every other branch of every
+    do-all decision on the way from the root to that occurrence has a completion made of valid leaves only
+    (then the route chosen by the implementation satisfies it too, whichever it is: C03_one_fault applies)"""
+    kinds, outs = graphs._tables(ops)
+    vc = graphs.vc_set(ops)
+    pos = [0]
+    verdicts = []
+
+    def run(n, clean, depth=0):
+        if depth > 300:
+            raise RecursionError()
+        k = kinds[n]
+        if k[0] == 'L':
+            if n == target:
+                verdicts.append(clean)
+            return
+        if k[1]:
+            kids = outs[n]
+            for i, t in enumerate(kids):
+                rest = all(vc[x] for j, x in enumerate(kids) if j != i)
+                run(t, clean and rest, depth + 1)
+        else:
+            i = path[pos[0]]
+            pos[0] += 1
+            run(outs[n][i], clean, depth + 1)
+    try:
+        run(root, True)
+    except Exception:  # noqa
+        return False
+    return bool(verdicts) and all(verdicts)
+
+
 def oracle(pid, ops, root, xpaths):
     """Judge the implementation alone against the property text.  Returns list of (sig, what, extra)."""
     N = graphs.N
@@ -180,8 +213,8 @@ def oracle(pid, ops, root, xpaths):
             if bool(e.is_valid) != (len(inv) == 0):
                 out.append(("label-disagrees", "entry %d labelled %s but applies invalid leaves %s" % (
                     idx, "valid" if e.is_valid else "invalid", sorted(set(inv))), {"entry": idx}))
-            if prod and not e.target.is_valid and set(inv) != {e.target.k}:
-                out.append(("more-than-one-fault", "entry %d targets invalid leaf %d, every sibling is completable, "
+            if not e.target.is_valid and set(inv) != {e.target.k} and (prod or siblings_completable(ops, root, e.path, e.target.k)):
+                out.append(("more-than-one-fault", "entry %d targets invalid leaf %d, every other branch that must be taken is completable, "
                             "but invalid leaves applied are %s" % (idx, e.target.k, sorted(set(inv))), {"entry": idx}))
         if pid == "C04":
             if e.target.k not in tr:
